@@ -11,6 +11,7 @@
 -/
 import XrlL4.CatalogueSpec
 import XrlL4.Gen.C15
+import XrlL4.Gen.C15Copy
 
 namespace XrlL4.C15
 open XrlL4 XrlL4.Gen.C15 XrlL4.Catalogue
@@ -158,5 +159,94 @@ example : (names [((1 : Nat), "a"), (2, "b"), (3, "c")]).Nodup := by decide
 example : byName [((1 : Nat), "a"), (1, "b")] 1 ≠ byIndex [((1 : Nat), "a"), (1, "b")] 1 := by decide
 example : nist.length = 180 ∧ nuclides.length = 10 ∧ crystals.length = 38 ∧ mendel.length = 107 := by decide +kernel
 example : macroName nistPrefix (codeOf (bytes 0x41622c20632d64)) = codeOf (bytes nistPrefix ++ [65, 66, 95, 67, 95, 68]) := by decide +kernel
+
+/-! ## 6. every lookup returns an independent deep copy — pointer level
+
+`Gen/C15Copy.lean` holds the statements with which the four lookup functions build the struct they return, and the
+statements of the two `Free…` functions, transliterated from the clang AST of the working tree (tools/c15_copy.py).
+`Copy.classify` reads off, member by member, whether it is copied, duplicated, deep-copied or merely pointer-assigned;
+the theorems of `XrlL4/CopyModel.lean` then hold for ANY heap and ANY static entry. -/
+
+open XrlL4.Copy XrlL4.Gen.C15Copy
+
+/-- what `GetCompoundDataNISTByIndex` / `…ByName` must do to the members of `struct compoundDataNIST` -/
+def nistKinds : List (String × Kind) :=
+  [("name", .dupStr), ("nElements", .scalar), ("Elements", .deepArr "nElements"), ("massFractions", .deepArr "nElements"), ("density", .scalar)]
+
+/-- what `GetRadioNuclideDataByIndex` / `…ByName` must do to the members of `struct radioNuclideData` -/
+def nuclideKinds : List (String × Kind) :=
+  [("name", .dupStr), ("Z", .scalar), ("A", .scalar), ("N", .scalar), ("Z_xray", .scalar), ("nXrays", .scalar),
+   ("XrayLines", .deepArr "nXrays"), ("XrayIntensities", .deepArr "nXrays"), ("nGammas", .scalar),
+   ("GammaEnergies", .deepArr "nGammas"), ("GammaIntensities", .deepArr "nGammas")]
+
+/-- **the code of the working tree copies every member**: both NIST lookup functions duplicate the name, copy the scalars,
+and allocate + `memcpy` each array with the element type of the member and the count member `nElements`; no member is
+pointer-assigned, none is forgotten; `FreeCompoundDataNIST` releases exactly the three pointer members, then the struct. -/
+theorem nist_lookups_copy_every_member :
+    classify nistStruct nistFields nistByIndex = some nistKinds ∧ classify nistStruct nistFields nistByName = some nistKinds ∧
+    AllDeep nistKinds = true ∧ (nistKinds.map (·.1)).Nodup ∧ nistFree = fieldSteps nistKinds ++ [.self] ∧ FreeMatches nistFields nistFree = true := by
+  decide
+
+theorem nuclide_lookups_copy_every_member :
+    classify nuclideStruct nuclideFields nuclideByIndex = some nuclideKinds ∧ classify nuclideStruct nuclideFields nuclideByName = some nuclideKinds ∧
+    AllDeep nuclideKinds = true ∧ (nuclideKinds.map (·.1)).Nodup ∧ nuclideFree = fieldSteps nuclideKinds ++ [.self] ∧
+    FreeMatches nuclideFields nuclideFree = true := by
+  decide
+
+/-- what the ByName functions do before the success branch (the temporary key of `lfind`, released again), and the failure
+guards of the ByIndex functions, are the ones the lookup model `Catalogue.byName` / `byIndex` stands for -/
+theorem lookup_preludes_as_modelled :
+    nistByNamePrelude = ["guard (key == NULL)", "guard (compoundString == NULL)", "key->name = xrl_strdup(compoundString)",
+      "nelp = nCompoundDataNISTList", "rv = lfind(key, compoundDataNISTList, &nelp, sizeof(struct compoundDataNIST), CompareCompoundDataNIST)",
+      "free(key->name)"] ∧
+    nuclideByNamePrelude = ["guard (key == NULL)", "guard (radioNuclideString == NULL)", "key->name = xrl_strdup(radioNuclideString)",
+      "nelp = nNuclideDataList", "rv = lfind(key, nuclideDataList, &nelp, sizeof(struct radioNuclideData), CompareRadioNuclideData)",
+      "free(key->name)"] ∧
+    nistByIndexGuards = ["if ((compoundIndex < 0) || (compoundIndex >= nCompoundDataNISTList))", "if (key == NULL)"] ∧
+    nuclideByIndexGuards = ["if ((radioNuclideIndex < 0) || (radioNuclideIndex >= nNuclideDataList))", "if (key == NULL)"] := by
+  decide
+
+/-- **every lookup returns an independent deep copy** (NIST compounds and radionuclides, by name and by index): on any heap
+`h` whose first `ns` cells are the static catalogue, for any static entry `src`, a successful lookup
+* returns a struct in a cell that did not exist before and leaves every existing cell as it was,
+* stores in it only pointers to cells that did not exist before, pairwise different, all live,
+* so that whatever the caller writes to or releases among those cells cannot change an existing cell (`write_above`, `free_above`),
+* and the `Free…` function of the working tree succeeds on it (no static object, no cell twice), leaves every cell that existed
+  before the lookup as it was, and empties the struct and every cell it pointed to. -/
+theorem catalogue_copies_independent (ks : List (String × Kind)) (hks : ks = nistKinds ∨ ks = nuclideKinds)
+    (h h' : Heap) (ns src key : Nat) (hns : ns ≤ h.length) (hc : copyRec ks h src = some (h', key)) :
+    h.length ≤ key ∧ (∀ a, a < h.length → read h' a = read h a) ∧
+    (∃ vs, read h' key = some (.struct vs) ∧ Fresh h.length key h' (ptrsOf vs) ∧
+      ∃ h'', freeRec ns (fieldSteps ks ++ [.self]) h' key = some h'' ∧ (∀ a, a < h.length → read h'' a = read h a) ∧
+        ∀ p ∈ key :: ptrsOf vs, read h'' p = none) := by
+  have hd : AllDeep ks = true ∧ (ks.map (·.1)).Nodup := by
+    rcases hks with rfl | rfl
+    · exact ⟨nist_lookups_copy_every_member.2.2.1, nist_lookups_copy_every_member.2.2.2.1⟩
+    · exact ⟨nuclide_lookups_copy_every_member.2.2.1, nuclide_lookups_copy_every_member.2.2.2.1⟩
+  obtain ⟨k1, _, k3⟩ := copy_frame hc
+  obtain ⟨vs, hv1, hv2⟩ := copy_fresh hd.1 hc
+  obtain ⟨h'', f1, f2, f3⟩ := free_releases hns hd.1 hd.2 hc
+  exact ⟨k1, k3, vs, hv1, hv2, h'', f1, f2, f3 vs hv1⟩
+
+/-- non-vacuity: a static "Water" entry (name, 2 elements, fractions, density) is looked up: the copy's pointers are the three
+new cells 4, 5, 6, the struct is cell 7; `FreeCompoundDataNIST` then empties exactly cells 4..7 -/
+def demoNist : Heap :=
+  [some (.arr [87, 97, 116, 101, 114]), some (.arr [1, 8]), some (.arr [111894, 888106]),
+   some (.struct [("name", .ptr 0), ("nElements", .num 2), ("Elements", .ptr 1), ("massFractions", .ptr 2), ("density", .num 1000000)])]
+
+example : copyRec nistKinds demoNist 3 =
+    some (demoNist ++ [some (.arr [87, 97, 116, 101, 114]), some (.arr [1, 8]), some (.arr [111894, 888106]),
+      some (.struct [("name", .ptr 4), ("nElements", .num 2), ("Elements", .ptr 5), ("massFractions", .ptr 6), ("density", .num 1000000)])], 7) := by
+  decide
+
+example : (copyRec nistKinds demoNist 3).bind (fun r => freeRec 4 nistFree r.1 r.2) = some (demoNist ++ [none, none, none, none]) := by decide
+
+/-- were `Elements` pointer-assigned (`key->Elements = rv->Elements`), the classification would say `shared` and the hypotheses of
+`catalogue_copies_independent` would fail -/
+example : classify nistStruct nistFields
+    [.allocSelf "compoundDataNIST", .strdup "name" "name", .assign "nElements" "nElements", .assign "Elements" "Elements",
+     .malloc "massFractions" "double" "nElements", .memcpy "massFractions" "massFractions" "double" "nElements", .assign "density" "density"] =
+    some [("name", .dupStr), ("nElements", .scalar), ("Elements", .shared), ("massFractions", .deepArr "nElements"), ("density", .scalar)] := by
+  decide
 
 end XrlL4.C15
